@@ -304,6 +304,18 @@ def zero_is_a_value_rule(index, rep, rid, modules, exempt=None):
                     continue
                 if not isinstance(x, (ast.Name, ast.Attribute, ast.Subscript)):
                     continue
+                # `node.edge.length = (a.length or 0) + (b.length or 0)`: an ABSENT length written back as a length of 0
+                if isinstance(x, ast.Attribute) and x.attr in NUMERIC_ATTRS and isinstance(d, ast.Constant) and d.value in (0, 0.0) and not isinstance(d.value, bool):
+                    pm_n = parent_map(fi.node)
+                    cur_n = b
+                    while cur_n in pm_n and not isinstance(cur_n, ast.stmt):
+                        cur_n = pm_n[cur_n]
+                    tg_n = cur_n.targets[0] if isinstance(cur_n, ast.Assign) and len(cur_n.targets) == 1 else (cur_n.target if isinstance(cur_n, ast.AugAssign) else None)
+                    if isinstance(tg_n, ast.Attribute) and tg_n.attr in NUMERIC_ATTRS:
+                        n += 1
+                        rep.check(False, rid, fi.qualname, "`%s` stored as %s" % (_canon_names(norm(b), fi), NUMERIC_ATTRS[tg_n.attr]), fn_where(fi, b), "",
+                                  "%s writes `%s` into `%s`: where %s is absent (None) the stored value becomes 0 - a tree read without branch lengths comes out of the operation with lengths of 0 on the merged edges (`:0` in its Newick), so a copy or an extraction no longer has the lengths of its source" % (fi.qualname, norm(b)[:50], norm(tg_n)[:40], NUMERIC_ATTRS[x.attr]))
+                        continue
                 if isinstance(d, ast.Constant) and any(d.value is v or (type(d.value) is type(v) and d.value == v) for v in _SAME_FALSY):
                     continue        # a falsy value is replaced by the same kind of 'nothing'
                 if isinstance(d, (ast.List, ast.Tuple, ast.Dict, ast.Set)) and not (getattr(d, "elts", None) or getattr(d, "keys", None)):
